@@ -1,3 +1,16 @@
 //! Safe-Rust verification hooks for this module (accessors/wrappers only; no logic).
 #![allow(unused_imports, dead_code)]
 use super::*;
+
+// ---------------------------------------------------------------- C04 (np_algo_h)
+/// Thin wrapper around the private `vote_leap`.
+pub fn vote_leap_hook(selection: &super::super::verif_hooks::SnapVecH) -> Option<NtpLeapIndicator> {
+    vote_leap(&selection.0)
+}
+/// Thin wrapper around `combine`: returns (used source ids, leap vote) of the combination.
+pub fn combine_sources_leap(
+    selection: &super::super::verif_hooks::SnapVecH,
+    algo_config: &AlgorithmConfig,
+) -> Option<(Vec<u64>, Option<NtpLeapIndicator>)> {
+    combine(&selection.0, algo_config).map(|c| (c.sources.iter().map(|id| id.0).collect(), c.leap_indicator))
+}
